@@ -129,6 +129,12 @@ class PortalRun:
         run = self
         loop_tid = lambda: run.loop_thread_ident
 
+        def value():
+            # what a callable returns is data, whatever its type: every third call returns an exception *instance*
+            obj = ("v", cid) if (cid[0] + cid[1]) % 3 else CallErr("returned, not raised", cid)
+            st["ret_obj"] = obj
+            return obj
+
         def enter():
             st["exec"] += 1
             st["running"] = True
@@ -139,13 +145,13 @@ class PortalRun:
             enter()
             st["running"] = False
             st["done"] = True
-            return ("v", cid)
+            return value()
 
         async def fcoro():
             enter()
             try:
                 await checkpoint()
-                return ("v", cid)
+                return value()
             except get_cancelled_exc_class():
                 st["cancelled_inside"] = True
                 raise
@@ -157,7 +163,7 @@ class PortalRun:
             enter()
             try:
                 await sleep(dur or 0.125)
-                return ("v", cid)
+                return value()
             except get_cancelled_exc_class():
                 st["cancelled_inside"] = True
                 raise
@@ -184,7 +190,7 @@ class PortalRun:
             try:
                 with move_on_after(2.0):
                     await run.release_event.wait()
-                return ("v", cid)
+                return value()
             except get_cancelled_exc_class():
                 st["cancelled_inside"] = True
                 raise
@@ -215,10 +221,11 @@ class PortalRun:
                     st["raised"] = exc
                     raise exc
                 if kind == "start":
-                    st["started_value"] = ("s", cid)
-                    task_status.started(("s", cid))
+                    sv = ("s", cid) if cid[1] % 2 else CallErr("started value, not an error", cid)
+                    st["started_value"] = sv
+                    task_status.started(sv)
                     await sleep(dur or 0.125)
-                return ("v", cid)
+                return value()
             except get_cancelled_exc_class():
                 st["cancelled_inside"] = True
                 raise
@@ -360,7 +367,7 @@ class PortalRun:
                     else:
                         if kind != "start":
                             self.v("result", f"call {cid}: start_task() returned {sv!r} although the task never called started()")
-                        elif sv != ("s", cid):
+                        elif sv is not st.get("started_value"):
                             self.v("result", f"call {cid}: start_task() returned start value {sv!r}")
                         else:
                             self.bump("start_value_delivered")
@@ -408,7 +415,7 @@ class PortalRun:
 
     def check_value(self, cid, r):
         st = self.calls[cid]
-        if r != ("v", cid):
+        if "ret_obj" not in st or r is not st["ret_obj"]:
             self.v("result", f"call {cid}: got {r!r} instead of the callable's return value")
         else:
             self.bump("value_delivered")
